@@ -95,6 +95,9 @@ func genWalFault(g *gen, n int, tier string, w *bufio.Writer) {
 		for i := 0; i < 3; i++ { // cuts exactly at the end of a physical record (inside a fragmented entry when there is one)
 			fmt.Fprintf(w, "engcutrec %d\n", g.intn(64))
 		}
+		// the same with a log file that is full (wal_max_size reached): recovery starts a new file instead of reusing the cut one
+		fmt.Fprintf(w, "engtrunc %d full\n", g.intn(4000))
+		fmt.Fprintf(w, "engcutrec %d full\n", g.intn(64))
 		fmt.Fprintf(w, "engflip %d %d\n", g.intn(4000), g.pick(1, 0xff))
 	}
 }
@@ -153,10 +156,14 @@ func (x *walFaultRun) replayDamaged(newest []byte) string {
 }
 
 // engine-level: manifest + damaged log directory; open, digest, write, reopen, compare
-func (x *walFaultRun) engineOn(newest []byte) string {
+func (x *walFaultRun) engineOn(newest []byte, full ...bool) string {
 	d := x.r.tempDir()
 	defer os.RemoveAll(d)
 	cfg := config.NewDefaultConfig(d)
+	if len(full) > 0 && full[0] {
+		// the newest log file has reached wal_max_size: recovery does not reuse (and so does not cut) it, a new file is started
+		cfg.WALMaxSize = 1
+	}
 	cfg.MaxMemTableAge = 0
 	cfg.CompactionInterval = 3600
 	cfg.WALSyncMode = config.SyncNone
@@ -221,7 +228,7 @@ func (x *walFaultRun) step(ws []string) (out string) {
 		} else {
 			off = 0
 		}
-		return fmt.Sprintf("eng %d %s", off, x.engineOn(b[:off]))
+		return fmt.Sprintf("eng %d %s", off, x.engineOn(b[:off], len(ws) > 2 && ws[2] == "full"))
 	case "engcutrec":
 		b := x.files[len(x.files)-1]
 		var ends []int
@@ -250,7 +257,7 @@ func (x *walFaultRun) step(ws []string) (out string) {
 		if len(ends) > 0 {
 			off = ends[i%len(ends)]
 		}
-		return fmt.Sprintf("eng %d %s", off, x.engineOn(b[:off]))
+		return fmt.Sprintf("eng %d %s", off, x.engineOn(b[:off], len(ws) > 2 && ws[2] == "full"))
 	case "engflip":
 		b := append([]byte{}, x.files[len(x.files)-1]...)
 		pos, _ := strconv.Atoi(ws[1])
